@@ -105,7 +105,8 @@ func selftestMutants(filter string, budget time.Duration) int {
 	if sents, err := os.ReadDir(sdir); err == nil {
 		for _, e := range sents {
 			var meta struct {
-				Property string `json:"property"`
+				Property string   `json:"property"`
+				Expect   []string `json:"expect_checks"`
 			}
 			mb, err := os.ReadFile(filepath.Join(sdir, e.Name(), "meta.json"))
 			if err != nil || json.Unmarshal(mb, &meta) != nil || meta.Property == "" {
@@ -116,6 +117,9 @@ func selftestMutants(filter string, budget time.Duration) int {
 				names = append(names, name)
 				paths[name] = filepath.Join(sdir, e.Name(), "patch.diff")
 				expect[name] = []string{meta.Property}
+				if len(meta.Expect) > 0 {
+					expect[name] = meta.Expect
+				}
 			}
 		}
 	}
